@@ -41,6 +41,23 @@ func init() {
 		c.genCheck("ctcpdec", hexIn(in), out, evArgs(e)...)
 		if strings.HasPrefix(out, "panic") {
 			c.R.Violation("ctcpdec.panic", hexIn(in), out, "", "DecodeCTCP panicked")
+			return
+		}
+		// the answer is a function of the event as it is NOW: the same Event value decoded again after its command was switched
+		// between PRIVMSG and NOTICE (or its source replaced, a by-value copy taken) decodes like a fresh event with those fields
+		if e.Command == "PRIVMSG" || e.Command == "NOTICE" {
+			flip := map[string]string{"PRIVMSG": "NOTICE", "NOTICE": "PRIVMSG"}[e.Command]
+			e.Command = flip
+			e.Source = &girc.Source{Name: "someoneelse", Ident: "o", Host: "elsewhere"}
+			cp := *e
+			fresh := &girc.Event{Command: flip, Params: append([]string{}, e.Params...), Source: &girc.Source{Name: "someoneelse", Ident: "o", Host: "elsewhere"}}
+			want := safely(func() string { return showCtcp(girc.DecodeCTCP(fresh)) })
+			again := safely(func() string { return showCtcp(girc.DecodeCTCP(e)) })
+			viaCopy := safely(func() string { return showCtcp(girc.DecodeCTCP(&cp)) })
+			if again != want || viaCopy != want {
+				c.R.Violation("c14.decode_remembers", hexIn(in), "again="+again+" copy="+viaCopy, want,
+					"DecodeCTCP of an Event that was decoded before and then changed differs from DecodeCTCP of a fresh Event with the same fields (reply iff NOTICE, origin = the event's source)")
+			}
 		}
 	}
 	// encode then decode: same command and text, reply iff NOTICE
@@ -354,7 +371,20 @@ func runC14(c *Ctx) {
 		cur = next
 	}
 	r.Exhaustive = true
-	pieces := []string{"\x01", "\x01", "ACTION", "PING", "ping", "VERSION", " ", "x", "1", "Ab", "\x01\x01", "é"}
+	pieces := []string{"\x01", "\x01", "ACTION", "PING", "ping", "VERSION", " ", "x", "1", "Ab", "\x01\x01", "é", "É", "ΡΙΝG", "ＡＢ", "٣", "Ω1"}
+	// a command is made of the BYTES A-Z and 0-9: upper-case letters and digits outside ASCII (validly encoded) are not command characters
+	for _, up := range []string{"É", "Α", "Ρ", "Ａ", "Ω", "Ж", "٣", "３", "𝟗", "Ǆ", "ǅ"} {
+		for _, body := range []string{up + "CHO hi", "PING" + up, up, "P" + up + "NG 1", up + up} {
+			for _, k := range []string{"PRIVMSG", "NOTICE"} {
+				e := &girc.Event{Command: k, Params: []string{"me", "\x01" + body + "\x01"}, Source: &girc.Source{Name: "n", Ident: "u", Host: "h"}}
+				c.run("ctcpdec", evIn(e))
+				if d := girc.DecodeCTCP(e); d != nil {
+					c.R.Violation("c14.non_ascii_command", hexIn(evIn(e)), showCtcp(d), "not CTCP", "a text whose command part contains a character outside A-Z/0-9 was decoded as CTCP")
+				}
+				r.Count(fmt.Sprint(evArgs(e)), true, "decode-nonascii-upper")
+			}
+		}
+	}
 	for i := 0; i < 4000*c.Scale; i++ {
 		var p strings.Builder
 		for k := c.Rng.Intn(5); k >= 0; k-- {
